@@ -312,7 +312,7 @@ static int cabd_read_headers(struct mspack_system *sys,
                              off_t offset, int salvage, int quiet)
 {
   int num_folders, num_files, folder_resv, i, x, err, fidx;
-  struct mscabd_folder_p *fol, *linkfol = NULL;
+  struct mscabd_folder_p *fol, *linkfol = NULL, *mergenext, *mergeprev;
   struct mscabd_file *file, *linkfile = NULL;
   unsigned char buf[64];
 
@@ -455,6 +455,7 @@ static int cabd_read_headers(struct mspack_system *sys,
     file->offset   = EndGetI32(&buf[cffile_FolderOffset]);
 
     /* set folder pointer */
+    mergenext = mergeprev = NULL;
     fidx = EndGetI16(&buf[cffile_FolderIndex]);
     if (fidx < cffileCONTINUED_FROM_PREV) {
       /* normal folder index; count up to the correct folder */
@@ -479,9 +480,8 @@ static int cabd_read_headers(struct mspack_system *sys,
         while (ifol->next) ifol = ifol->next;
         file->folder = ifol;
 
-        /* set "merge next" pointer */
-        fol = (struct mscabd_folder_p *) ifol;
-        if (!fol->merge_next) fol->merge_next = file;
+        /* this folder's "merge next" pointer is set once the entry is kept */
+        mergenext = (struct mscabd_folder_p *) ifol;
       }
 
       if ((fidx == cffileCONTINUED_FROM_PREV) ||
@@ -490,9 +490,8 @@ static int cabd_read_headers(struct mspack_system *sys,
         /* get first folder */
         file->folder = cab->base.folders;
 
-        /* set "merge prev" pointer */
-        fol = (struct mscabd_folder_p *) file->folder;
-        if (!fol->merge_prev) fol->merge_prev = file;
+        /* this folder's "merge prev" pointer is set once the entry is kept */
+        mergeprev = (struct mscabd_folder_p *) file->folder;
       }
     }
 
@@ -518,6 +517,11 @@ static int cabd_read_headers(struct mspack_system *sys,
       if (salvage) continue;
       return err ? err : MSPACK_ERR_DATAFORMAT;
     }
+
+    /* the entry is kept: only now may a folder's merge pointers refer to it
+     * (a discarded entry has just been freed) */
+    if (mergenext && !mergenext->merge_next) mergenext->merge_next = file;
+    if (mergeprev && !mergeprev->merge_prev) mergeprev->merge_prev = file;
 
     /* link file entry into file list */
     if (!linkfile) cab->base.files = file;
